@@ -45,6 +45,17 @@ def _solve_bounded_lp(c: Any, a_ub: Any, b_ub: Any) -> Any:
         trusted = abs(dual - res["fun"]) <= 1e-9 * (1 + abs(res["fun"]))  # noqa: WPS432 magic number
     if not trusted:
         res = linprog(c=c, A_ub=a_ub, b_ub=b_ub, bounds=(None, None), options={"presolve": False})
+    if res["status"] != 0:
+        # a very small objective next to large constraint coefficients is still reported as unbounded:
+        # solve for the objective scaled to unit size
+        scale = float(np.max(np.abs(c)))
+        if scale > 0:
+            scaled = linprog(
+                c=np.asarray(c) / scale, A_ub=a_ub, b_ub=b_ub, bounds=(None, None), options={"presolve": False}
+            )
+            if scaled["status"] == 0:
+                scaled["fun"] = scaled["fun"] * scale
+                res = scaled
     return res
 
 
